@@ -284,7 +284,10 @@ fn is_core(o: &Op) -> bool {
 pub fn spaces_mode<'a>(prop: &'a str, mode: Mode, deadline: Instant, threads: usize) -> Vec<Space<'a>> {
     let thorough = mode == Mode::Deep;
     let (groups, probes) = groups_of(prop);
-    let cfgs = if mode == Mode::Wide { configs::full() } else { configs::quick() };
+    let mut cfgs = if mode == Mode::Wide { configs::full() } else { configs::quick() };
+    if mode == Mode::Wide && prop == "C12" {
+        cfgs.extend(configs::pad());
+    }
     let z = SlabCfg::default();
     let og = SlabCfg { phase: 48, overgrant: 40, fail_mask: 0 };
     let og2 = SlabCfg { phase: 4080, overgrant: 100, fail_mask: 0 };
